@@ -95,10 +95,10 @@ class Report:
         from .srcindex import AnalysisError
 
         for r in self.rules:
-            if r.floor is not None and r.instances < r.floor and not self.analysis_errors:
+            if r.floor is not None and r.instances < max(1, (r.floor * 3 + 4) // 5) and not self.analysis_errors:
                 raise AnalysisError(
-                    f"rule {r.rule} evaluated {r.instances} instances, below the floor {r.floor} confirmed by hand "
-                    f"(a rule that matches too few sites would pass vacuously)"
+                    f"rule {r.rule} evaluated {r.instances} instances, below 60% of the {r.floor} confirmed by hand "
+                    f"(a rule that matches too few sites would pass vacuously; the margin allows sites to be merged by a refactoring)"
                 )
         known = load_known()
         open_known = [k for k in known if k.get("status") == "open" and k.get("property") == self.prop]
